@@ -49,6 +49,7 @@ def run_shard(ctx):
     qmgen.drive_histories(ctx, OWN, qmgen.enqueue_vs_load_history(), ctx.n(800, 12000), nontrivial, salt=14)
     qmgen.drive_histories(ctx, OWN, qmgen.own_write_announced_history(), ctx.n(600, 10000), nontrivial, salt=16)
     qmgen.drive_histories(ctx, OWN, qmgen.storage_fault_history(), ctx.n(800, 12000), nontrivial, salt=12)
+    qmgen.drive_histories(ctx, OWN, qmgen.sched_hold_history(), ctx.n(400, 8000), nontrivial, salt=19)
 
 
 def replay(case):
